@@ -220,7 +220,11 @@ pub fn generate(rng: &mut Rng, cfg: &GenConfig) -> Program {
                 let g = if rng.chance(1, 2) { let g = gates; gates += 1; opener_ops.push(Op::Open(g)); Some(g) } else { None };
                 let keep = rng.chance(2, 3);
                 let f = if keep { let f = futs; futs += 1; live_futs.push((f, "sf")); Some(f) } else { None };
-                if g.is_some() && rng.chance(1, 3) { ops.push(Op::After(o, g.unwrap(), f)); } else { ops.push(Op::FDesync(o, g, f)); }
+                if g.is_some() && rng.chance(1, 3) {
+                    // `after` returns an opaque future: it can be awaited or dropped but has no .sync()
+                    if let Some(last) = live_futs.last_mut() { if Some(last.0) == f { last.1 = "af"; } }
+                    ops.push(Op::After(o, g.unwrap(), f));
+                } else { ops.push(Op::FDesync(o, g, f)); }
             } else if pick < 76 && cfg.fsync {
                 let g = if rng.chance(1, 2) { let g = gates; gates += 1; opener_ops.push(Op::Open(g)); Some(g) } else { None };
                 // a future_sync slot blocks its queue until the returned future is awaited or dropped, so the
@@ -256,8 +260,11 @@ pub fn generate(rng: &mut Rng, cfg: &GenConfig) -> Program {
         while kind(o) != 'd' { o = (o + 1) % objects; }
         let t = rng.below(threads.len());
         let at = rng.below(threads[t].len() + 1);
-        // never between a suspend and its resume
+        // never between a suspend and its resume, nor between a future_sync and its await/drop
         let safe = !threads[t].iter().any(|op| matches!(op, Op::Suspend(..)));
+        let mut at = at;
+        while at > 0 && at < threads[t].len() && matches!(threads[t][at], Op::Await(_) | Op::DropF(_) | Op::Yield) && threads[t][..at].iter().rev().take_while(|op| matches!(op, Op::Yield | Op::FSync(..))).any(|op| matches!(op, Op::FSync(..))) { at -= 1; }
+        if at > 0 && at < threads[t].len() && matches!(threads[t][at - 1], Op::FSync(..)) { at -= 1; }
         if safe { threads[t].insert(at, Op::DropObj(o)); }
     }
     if !opener_ops.is_empty() {
